@@ -74,6 +74,7 @@ class Optimizer
 		static const int max_sub_stack;
 		static const int max_loop_stack;
 		static const int max_loop_count;
+		static const int max_src_stack;
 
 		int16_t sub_id;
 		int pass;
